@@ -196,6 +196,9 @@ structure OState where
   phases : List ((Bytes × Bytes) × Spec.Phase Bytes) := []
   /-- key-table entries the specification says are known by now (sorted pair → PTK, CCMP?) -/
   expect : List ((Bytes × Bytes) × (Bytes × Bool)) := []
+  /-- a beacon-subtype frame the specification does not interpret (to/from-DS bits set) has been seen: libtins may know
+      access points the oracle does not, so the beacon clauses keep quiet from here on -/
+  oddBeacon : Bool := false
 
 def kv (ws : List String) (key : String) : Option String :=
   ws.findSome? (fun w => if w.startsWith (key ++ "=") then some ((w.drop (key.length + 1)).toString) else none)
@@ -379,8 +382,10 @@ def beaconClause (st : OState) (bssid : Bytes) (ssid : Option Bytes) (out : Stri
   match learned with
   | some (s, pmk) =>
     ({ st with aps := (bssid, (s, pmk)) :: st.aps },
-      if ev.contains s!"ap:{toHex s}:{toHex bssid}" then "ok" else "violates access-point-not-learned-from-beacon")
-  | none => (st, if ev.any (·.startsWith "ap:") then "violates access-point-reported-without-reason" else "ok")
+      if st.oddBeacon then "unspecified"
+      else if ev.contains s!"ap:{toHex s}:{toHex bssid}" then "ok" else "violates access-point-not-learned-from-beacon")
+  | none => (st, if st.oddBeacon then "unspecified"
+      else if ev.any (·.startsWith "ap:") then "violates access-point-reported-without-reason" else "ok")
 
 def worse (a b : String) : String := if a.startsWith "violates" then a else if b.startsWith "violates" then b else if a == "ok" then b else a
 
@@ -444,7 +449,10 @@ def specStep (st : OState) (line : String) : OState × String :=
           | none =>
             match Spec.keyFrameOf frame with
             | some kf => hsClause st kf out
-            | none => if mightBeEapol frame then ({ st with phases := [] }, "ok", none) else (st, "ok", none)
+            | none =>
+              if mightBeEapol frame then ({ st with phases := [] }, "ok", none)
+              else if frame.getD 0 0 == 0x80 then ({ st with oddBeacon := true }, "unspecified", none)
+              else (st, "ok", none)
         match ann with
         | ["learn", a, b, k, c] =>
           -- the generator's claim: a valid handshake history for a known network ends here with this PTK
